@@ -18,9 +18,62 @@ import (
 
 func _deploy(data any, isUpdate bool) {
 	storage.Put(storage.GetContext(), "seed", 1)
+	cb(data, 0)
+}
+
+// cb is the body of every entry point that native contracts call back
+// (_deploy, onNEP17Payment, the oracle callback, balanceOf / transfer of a
+// token handed to Policy.recoverFund). It reads the call flags of the
+// executing context (step does), tries one effect and relays to other probes:
+// the plan [act, key, next] comes with the data argument when there is one,
+// else from what Arm stored, else the fixed effect dflt is attempted.
+func cb(data any, dflt int) {
 	if data != nil {
-		storage.Put(storage.GetContext(), "deployed", 1)
-		runtime.Notify("Ev", 7)
+		p := data.([]any)
+		step(p[0].(int), p[1].([]byte), p[2].([]any))
+		return
+	}
+	ctx := storage.GetReadOnlyContext()
+	if storage.Get(ctx, "cb-on") == nil {
+		step(dflt, []byte("k-dflt"), []any{})
+		return
+	}
+	a := storage.Get(ctx, "cb-act").(int)
+	key := storage.Get(ctx, "cb-key").([]byte)
+	next := []any{}
+	nh := storage.Get(ctx, "cb-nh")
+	if nh != nil {
+		n2 := []any{}
+		h2 := storage.Get(ctx, "cb-2h")
+		if h2 != nil {
+			n2 = []any{h2, storage.Get(ctx, "cb-2m"), storage.Get(ctx, "cb-2f").(int), storage.Get(ctx, "cb-2a").(int), storage.Get(ctx, "cb-2k"), []any{}}
+		}
+		next = []any{nh, storage.Get(ctx, "cb-nm"), storage.Get(ctx, "cb-nf").(int), storage.Get(ctx, "cb-na").(int), storage.Get(ctx, "cb-nk"), n2}
+	}
+	step(a, key, next)
+}
+
+// Arm stores the plan that the callbacks run when they get no data: effect a
+// with key, then up to two relays next = [hash, method, flags, act, key, next].
+func Arm(a int, key []byte, next []any) {
+	ctx := storage.GetContext()
+	storage.Put(ctx, "cb-on", 1)
+	storage.Put(ctx, "cb-act", a)
+	storage.Put(ctx, "cb-key", key)
+	if len(next) > 0 {
+		storage.Put(ctx, "cb-nh", next[0].(interop.Hash160))
+		storage.Put(ctx, "cb-nm", next[1].(string))
+		storage.Put(ctx, "cb-nf", next[2].(int))
+		storage.Put(ctx, "cb-na", next[3].(int))
+		storage.Put(ctx, "cb-nk", next[4].([]byte))
+		n2 := next[5].([]any)
+		if len(n2) > 0 {
+			storage.Put(ctx, "cb-2h", n2[0].(interop.Hash160))
+			storage.Put(ctx, "cb-2m", n2[1].(string))
+			storage.Put(ctx, "cb-2f", n2[2].(int))
+			storage.Put(ctx, "cb-2a", n2[3].(int))
+			storage.Put(ctx, "cb-2k", n2[4].([]byte))
+		}
 	}
 }
 
@@ -45,6 +98,10 @@ func act(a int, key []byte) {
 	}
 	if a == 7 {
 		gas.Transfer(runtime.GetExecutingScriptHash(), interop.Hash160(key), 1, nil)
+	}
+	if a == 8 {
+		storage.Put(storage.GetContext(), key, []byte{8})
+		runtime.Notify("Ev", 8)
 	}
 }
 
@@ -103,16 +160,27 @@ func Flags() int {
 	return int(contract.GetCallFlags())
 }
 
-// OnNEP17Payment writes and notifies: the effect of a payment callback.
+// OnNEP17Payment is the payment callback of the NEP-17 natives (transfers and
+// mints); without a plan it writes and notifies.
 func OnNEP17Payment(from interop.Hash160, amount int, data any) {
-	storage.Put(storage.GetContext(), "paid", amount)
-	runtime.Notify("Ev", amount)
+	cb(data, 8)
 }
 
-// OracleCb is the oracle response callback.
+// OracleCb is the oracle response callback; without a plan it writes and notifies.
 func OracleCb(url string, userData any, code int, result []byte) {
-	storage.Put(storage.GetContext(), "oracle", code)
-	runtime.Notify("Ev", code)
+	cb(userData, 8)
+}
+
+// BalanceOf and Transfer let the probe be the token of Policy.recoverFund:
+// both are entered by the native contract.
+func BalanceOf(acc interop.Hash160) int {
+	cb(nil, 0)
+	return 7
+}
+
+func Transfer(from interop.Hash160, to interop.Hash160, amount int, data any) bool {
+	cb(data, 8)
+	return true
 }
 
 // Verify lets the contract be a transaction signer.
